@@ -1131,6 +1131,29 @@ func c01R13(c *Ctx) {
 			}
 		}
 	}
+	// the sending side of the same convention: the only empty chunk a file's writer delivers is the closing one
+	wc := c.fn("sendDataWriter.Close")
+	nEmpty, nData := 0, 0
+	for _, ci := range callsIn(wc, idIs("(*trzsz.sendDataWriter).deliver")) {
+		arg := ci.Common().Args[1]
+		if bc, _ := callOf(arg); bc != nil && calleeID(&bc.Call) == "(*bytes.Buffer).Bytes" {
+			nData++
+			pos := factPositive(factsAt(ci.Block()), func(v ssa.Value) bool {
+				lc, _ := callOf(v)
+				return lc != nil && calleeID(&lc.Call) == "(*bytes.Buffer).Len" && (sameAddr(lc.Call.Args[0], bc.Call.Args[0]) || sameValue(lc.Call.Args[0], bc.Call.Args[0]))
+			})
+			c.check(pos, "sendDataWriter.Close/flush-only-nonempty", c.ipos(ci), "the rest of the buffer is delivered only when it is not empty (an empty chunk means end of data)", "an empty rest of the buffer can be delivered: the receiver takes it for the end-of-data marker and the real marker that follows breaks the exchange")
+			continue
+		}
+		if els, ok := sliceElems(arg); ok && len(els) == 0 {
+			nEmpty++
+		} else if sl, isS := strip(arg).(*ssa.Slice); isS {
+			if al, isAl := sl.X.(*ssa.Alloc); isAl && arrayLen(al) == 0 {
+				nEmpty++
+			}
+		}
+	}
+	c.check(nEmpty == 1 && nData == 1, "sendDataWriter.Close/one-end-marker", c.pos(wc.Pos()), "closing a file's writer delivers the rest of the buffer and then exactly one empty chunk", fmt.Sprintf("closing a file's writer delivers %d data chunk(s) and %d empty chunk(s); expected 1 and 1", nData, nEmpty))
 	// the binary receiver reads a payload exactly when the announced chunk size is not zero
 	bf := c.fn("trzszTransfer.pipelineRecvBinaryData")
 	for _, ci := range callsIn(bf, idIs("(*trzsz.trzszBuffer).readBinary")) {
